@@ -204,19 +204,37 @@ func RunCfgs(args []string) int {
 			break
 		}
 	}
+	// one more session outside the enumerated configurations: keep-alive under constant traffic, flood control on
+	{
+		c := Cfg{Nick: "busy", Ident: "ident", Name: "Real Name", Server: "irc.example.net:6667", PingFreq: 80}
+		r, err := runOne(c, nil, nil, 12*time.Second, true)
+		if err != nil {
+			fmt.Println("INCOMPLETE keep-alive under traffic:", err)
+			return 3
+		}
+		b, _ := json.Marshal(r)
+		w.Write(cmds.ASCIIJSON(b))
+		w.WriteByte('\n')
+		n++
+	}
 	b, _ := json.Marshal(map[string]interface{}{"sessions": n, "tls_sessions": ssl, "tokens": len(tokens), "sample": sample})
 	fmt.Println("SUMMARY " + string(b))
 	return 0
 }
 
-func runOne(c Cfg, cert *tls.Certificate, tokens []string, window time.Duration) (*rec, error) {
+var ctcpQueries = []ctcp{{Verb: "VERSION", From: "asker"}, {Verb: "PING", HasArg: true, Arg: "12345 678", From: "asker2"}, {Verb: "TIME", HasArg: true, Arg: "now", From: "asker"}}
+
+// traffic: flood control on and the server pinging the client all the time - the client's own keep-alive PINGs
+// (PingFreq > 0) are due nevertheless
+func runOne(c Cfg, cert *tls.Certificate, tokens []string, window time.Duration, traffic ...bool) (*rec, error) {
+	busy := len(traffic) > 0 && traffic[0]
 	netw := fakenet.NewNetwork()
 	defer netw.Release()
 	cfg := client.NewConfig(c.Nick, c.Ident, c.Name)
 	cfg.Server, cfg.Pass, cfg.SSL = c.Server, c.Pass, c.SSL
 	cfg.SSLConfig = &tls.Config{InsecureSkipVerify: true}
 	cfg.Proxy = netw.URL()
-	cfg.Flood = true
+	cfg.Flood = !busy
 	cfg.EnableCapabilityNegotiation = c.Neg
 	cfg.PingFreq = time.Duration(c.PingFreq) * time.Millisecond
 	cfg.Timeout = 5 * time.Second
@@ -259,6 +277,29 @@ func runOne(c Cfg, cert *tls.Certificate, tokens []string, window time.Duration)
 		srv.send(":irc.example.net 001 " + c.Nick + " :Welcome " + c.Nick + "!" + c.Ident + "@host")
 		if round == 0 {
 			r.Burst = burstOf(srv.get())
+			if busy {
+				stop := make(chan struct{})
+				go func() {
+					for i := 0; i < 14; i++ {
+						select {
+						case <-stop:
+							return
+						case <-time.After(30 * time.Millisecond):
+							srv.send(fmt.Sprintf("PING :srv-%d", i))
+						}
+					}
+				}()
+				srv.waitFor(window, func(l []string) bool {
+					for _, x := range l {
+						if strings.HasPrefix(x, "PING :") {
+							return true
+						}
+					}
+					return false
+				})
+				close(stop)
+				tokens = nil
+			}
 			for i, tok := range tokens {
 				before := len(srv.get())
 				if strings.ContainsAny(tok, " :") || tok == "" || i%2 == 0 {
@@ -294,7 +335,11 @@ func runOne(c Cfg, cert *tls.Certificate, tokens []string, window time.Duration)
 				r.Pongs = append(r.Pongs, pong{Tok: latin(tok), Reply: latinAll(reply)})
 			}
 			// the built-in CTCP answers
-			for i, q := range []ctcp{{Verb: "VERSION", From: "asker"}, {Verb: "PING", HasArg: true, Arg: "12345 678", From: "asker2"}, {Verb: "TIME", HasArg: true, Arg: "now", From: "asker"}} {
+			qs := []ctcp{}
+			if !busy {
+				qs = append(qs, ctcpQueries...)
+			}
+			for i, q := range qs {
 				before := len(srv.get())
 				body := q.Verb
 				if q.HasArg {
@@ -324,7 +369,7 @@ func runOne(c Cfg, cert *tls.Certificate, tokens []string, window time.Duration)
 				}
 				r.Ctcps = append(r.Ctcps, q)
 			}
-			if !c.SSL {
+			if !c.SSL && !busy {
 				// a PING that arrives while the output queue is full (the server has stopped reading for a moment,
 				// a user goroutine keeps sending): the answer is late, not lost
 				before := len(srv.get())
@@ -360,7 +405,9 @@ func runOne(c Cfg, cert *tls.Certificate, tokens []string, window time.Duration)
 				}
 				r.Pongs = append(r.Pongs, pong{Tok: "under-pressure", Reply: latinAll(reply)})
 			}
-			time.Sleep(window)
+			if !busy {
+				time.Sleep(window)
+			}
 			for _, x := range srv.get() {
 				if strings.HasPrefix(x, "PING :") {
 					r.Pings++
